@@ -320,3 +320,30 @@ def campaign(ctx):
 
     for kind in kinds:
         ctx.run_machine(make_machine(kind), max_examples=ctx.n(150, 1500), steps=ctx.n(20, 40))
+    # short histories enumerated completely (seed independent): every class used (hence cached), then one registration on any
+    # class, then every class used again; and a registration repeated after another one of equal priority
+    def reg(c, sub=True, prio=0):
+        return ["reg", {"classes": [c], "sub": sub, "prio": prio, "attr": False, "meta": False, "det": None}]
+    idx = 0
+    for kind in kinds:
+        via = VIAS[kind][0]
+        uses = [["use", c, via] for c in CLASSES]
+        histories = []
+        for y in CLASSES:
+            for sub in (True, False):
+                for prio in (0, 1):
+                    histories.append([reg("A")] + uses + [reg(y, sub, prio)] + uses)
+        for x in CLASSES:
+            for y in CLASSES:
+                if x != y:
+                    histories.append([reg(x), reg(y), reg(x)] + uses)
+                    histories.append([reg(x, True, 0), reg(y, True, 1), reg(x, True, 1)] + uses)
+        for ops in histories:
+            idx += 1
+            if idx % ctx.nshards != ctx.shard:
+                continue
+            case = {"registry": kind, "ops": ops}
+            ctx.ev()
+            ctx.nt(case)
+            ctx.fail_all(judge(case), case)
+    ctx.extra["short_histories_exhaustive"] = True
